@@ -28,6 +28,7 @@ def case_strategy(draw):
     trials = [5 + (i * 7 + seed) % 9 for i in range(n)]
     spec["cols"].append({"name": "s", "kind": "int", "values": [(i * 5 + seed) % (t + 1) for i, t in enumerate(trials)]})
     spec["cols"].append({"name": "n", "kind": "int", "values": trials})
+    spec["cols"].append({"name": "t", "kind": "float", "values": [3.0] * n})  # an exposure that happens to be constant in training
     kind = draw(st.sampled_from(["binary", "binary", "offset", "offset", "prop", "prop", "identity", "alias", "alias", "prop_invalid"]))
     c = {"kind": kind, "frame": spec}
     rows = draw(st.lists(st.integers(0, n - 1), min_size=1, max_size=6))
@@ -41,7 +42,7 @@ def case_strategy(draw):
         c["fn"] = draw(st.sampled_from(["binary", "B"]))
         c["keyword"] = draw(st.booleans())
     elif kind == "offset":
-        c["arg"] = draw(st.sampled_from(["x", "z", "k", "2", "2.5", "-2", "1 + 1", "-1.5", "3 * 2", "np.log(p)", "x * 2", "-x", "0", "k + 1"]))
+        c["arg"] = draw(st.sampled_from(["x", "z", "k", "2", "2.5", "-2", "1 + 1", "-1.5", "3 * 2", "np.log(p)", "x * 2", "-x", "0", "k + 1", "t", "np.log(t)", "t * 2"]))
     elif kind == "prop":
         c["fn"] = draw(st.sampled_from(["prop", "p", "proportion"]))
         c["trials"] = draw(st.sampled_from(["n", "n", "40", "trials=n", "trials=40", "n + 1"]))
@@ -156,10 +157,10 @@ def judge(ctx, case):
     if kind == "offset":
         arg = case["arg"]
         formula = f"y ~ 1 + offset({arg})"
-        done(formula, extra=["offset:" + ("column" if arg in ("x", "z") else ("call" if any(c.isalpha() for c in arg) else "constant"))])
+        done(formula, extra=["offset:" + ("column" if arg in ("x", "z", "t", "k") else ("call" if any(c.isalpha() for c in arg) else "constant"))])
         full = dict(case, formula=formula)
         env = {"x": frame["x"].to_numpy(dtype=float), "z": frame["z"].to_numpy(dtype=float), "p": frame["p"].to_numpy(dtype=float), "np": np,
-               "k": frame["k"].to_numpy(dtype=float)}
+               "k": frame["k"].to_numpy(dtype=float), "t": frame["t"].to_numpy(dtype=float)}
         try:
             dm = build(formula)
             name = [t for t in dm.common.terms if t.startswith("offset")][0]
@@ -172,7 +173,7 @@ def judge(ctx, case):
             ctx.fail("offset", full, f"{formula!r}: the offset column is not {arg} (broadcast)", "training_values")
         new = new_frame(case)
         env2 = {"x": new["x"].to_numpy(dtype=float), "z": new["z"].to_numpy(dtype=float), "p": new["p"].to_numpy(dtype=float), "np": np,
-                "k": new["k"].to_numpy(dtype=float)}
+                "k": new["k"].to_numpy(dtype=float), "t": new["t"].to_numpy(dtype=float)}
         try:
             with core.Guard():
                 g2 = col_of(dm.common.evaluate_new_data(new)[name])
